@@ -286,6 +286,56 @@ func zzC06_mid_collision() {
 	symAssert(a.err == nil && len(a.body) == 1 && a.body[0] == 9, "and its acknowledgement still completes it")
 }
 
+// two confirmable requests are unacknowledged at once (NSTART 2) - one with a payload, one without - and fall due
+// in the same housekeeping tick: each retransmitted copy is identical to the first copy of its own request
+func zzC06_two_pending() {
+	s := zzNewSession()
+	cc := zzNewConn(s, zzConnCfg{midSeed: 1000, nstart: 2, maxRetrans: 4, ackTimeout: 1000})
+	now := int64(1 << 41)
+	symSetNow(time.Unix(0, now))
+	pay := symBytes("payload", 3)
+	withBodyFirst := symChoose("request-with-payload-first", 2) == 1
+	mk := func(body bool, tok byte) {
+		req := pool.NewMessage(context.Background())
+		req.SetToken(message.Token{tok})
+		_ = req.SetPath("/a")
+		if body {
+			req.SetCode(codes.POST)
+			req.SetContentFormat(message.AppOctets)
+			req.SetBody(bytesReader(pay))
+		} else {
+			req.SetCode(codes.GET)
+		}
+		_, _ = cc.Do(req)
+	}
+	go mk(withBodyFirst, 0xA1)
+	zzWaitWritten(s, 1)
+	symIdle()
+	go mk(!withBodyFirst, 0xB1)
+	zzWaitWritten(s, 2)
+	symIdle()
+	first := append([]zzWritten(nil), s.written...)
+	now += 5000
+	symSetNow(time.Unix(0, now))
+	cc.CheckExpirations(time.Unix(0, now))
+	symAssert(len(s.written) == 4, "both unacknowledged requests are retransmitted in the tick in which they fall due")
+	symCover("both-retransmitted")
+	for _, w := range s.written[2:] {
+		var orig *zzWritten
+		for k := range first {
+			if first[k].mid == w.mid {
+				orig = &first[k]
+			}
+		}
+		symAssert(orig != nil, "a retransmission carries the message ID of a pending request")
+		if orig != nil {
+			symAssert(w.code == orig.code && w.typ == orig.typ && bytes.Equal(w.token, orig.token) && bytes.Equal(w.payload, orig.payload) && w.nopts == orig.nopts && w.cf == orig.cf, "every retransmitted copy is identical to the first copy of its own request")
+		}
+	}
+	_ = cc.Close()
+	symIdle()
+}
+
 func zzC06_selftest() {
 	s := zzNewSession()
 	cc := zzNewConn(s, zzConnCfg{midSeed: 1000, ackTimeout: 1000, maxRetrans: 2, nstart: 1})
